@@ -2,6 +2,7 @@
 import ast
 
 from .common import *  # noqa
+from . import c04
 
 TREE = "dendropy.datamodel.treemodel._tree.Tree"
 BIP = "dendropy.datamodel.treemodel._bipartition.Bipartition"
@@ -239,6 +240,14 @@ def run(index, rep, tier):
         all(norm(w_.value) == "edge" for w_ in fills)
     rep.check(keyok, "R01.5", g.qualname, "map keys/values", fn_where(g), "maps are keyed by the edge's own bipartition / split bitmask and hold that edge",
               "the edge maps are keyed or filled with something other than the edge's own bipartition/split bitmask")
+
+    # ---- R01.7 / R01.8
+    rep.rule("R01.7", "Tree-level predicates that take is_bipartitions_updated re-encode before reading the encoding unless told not to (freshness, shared engine with R04.1)")
+    nf = c04.freshness_everywhere(index, rep, "R01.7", ["dendropy.datamodel.treemodel._tree"])
+    rep.floor("R01.7", "Tree methods using the freshness flag", 2, nf)
+    rep.rule("R01.8", "the taxon -> bit assignment is stable: the accession-index state is written only by the namespace's maintaining functions and add_taxon pairs both maps with the monotone counter (shared with R10.1-R10.3)")
+    from . import c10
+    c10.index_state_rules(index, rep, {"R10.1": "R01.8", "R10.2": "R01.8", "R10.3": "R01.8"})
 
     # ---- R01.6
     wiring = [
